@@ -1,7 +1,7 @@
 SPECIFICATION Spec
 CONSTANTS
   AmbiguityFirst = TRUE
-  Kinds = {"up", "authn", "idtu"}
+  Kinds = {"up", "authn", "idtu", "empty"}
   MaxKeys = 3
   Export = FALSE
 INVARIANTS
